@@ -243,3 +243,32 @@ Proof.
     destruct (t_finished (track_tick_b cfg tr2 st) && t_rwd (track_tick_b cfg tr2 st)); [|exact P].
     rewrite remove_track_tracks. rewrite find_del_other; [exact P|]. intros E. apply Ne. symmetry. exact E.
 Qed.
+
+(** * Scene changes: a callback that removes tracks and schedules as many new ones *)
+(* whatever LIST of operations a callback goes on to perform - e.g. schedule exactly as many tracks as it removed, so that the
+   length of the track list is back at its value from the start of the tick - a track that is out of the list stays out *)
+Lemma cb_ops_gone_stays cfg ops : forall tl, gone_stays tl (exec_cb_ops cfg tl ops).
+Proof.
+  induction ops as [|o r IH]; intros tl; [apply gs_refl|]. cbn [exec_cb_ops].
+  pose proof (exec_op_gs cfg o tl) as E. destruct (exec_op cfg tl o) as [tl1 res]. cbn [fst] in E.
+  destruct res; try exact E. apply (gs_trans _ _ _ E). apply IH.
+Qed.
+Theorem removed_by_callback_takes_no_turn cfg tl id ops : wf tl -> (id < next_id tl)%nat -> find_track id (tracks tl) = None ->
+  find_track id (tracks (exec_cb_ops cfg tl ops)) = None
+  /\ tick_one cfg (exec_cb_ops cfg tl ops) id = (exec_cb_ops cfg tl ops, [], None).
+Proof.
+  intros W L F. destruct (cb_ops_gone_stays cfg ops tl W) as [_ [_ G]]. pose proof (G id L F) as N.
+  split; [exact N|apply absent_no_turn; exact N].
+Qed.
+(* the operation that removes it: after unschedule (the track was listed) or clear, the hypothesis above holds *)
+Theorem unschedule_then_anything cfg tl id tr ops : wf tl -> find_track id (tracks tl) = Some tr ->
+  let tl1 := fst (exec_op cfg tl (OUnschedule id)) in
+  find_track id (tracks (exec_cb_ops cfg tl1 ops)) = None
+  /\ tick_one cfg (exec_cb_ops cfg tl1 ops) id = (exec_cb_ops cfg tl1 ops, [], None).
+Proof.
+  intros W F tl1. pose proof (unschedule_spec cfg tl id W) as U. rewrite F in U. destruct U as [U1 [U2 _]].
+  assert (E : tl1 = remove_track tl id) by (subst tl1; rewrite U1; reflexivity).
+  rewrite E. apply removed_by_callback_takes_no_turn; [apply wf_remove; exact W| |exact U2].
+  replace (next_id (remove_track tl id)) with (next_id tl) by (unfold remove_track; destruct (find_track id (tracks tl)); reflexivity).
+  apply (scheduled_below tl id tr W F).
+Qed.
